@@ -57,7 +57,12 @@ OrderVecs == {[offer |-> <<[kind |-> k[1], mid |-> "0", dir |-> "sendrecv", code
                            [kind |-> k[2], mid |-> "1", dir |-> "sendrecv", codecs |-> c2]>>,
                pre |-> "none", post |-> "none", place |-> "media"] :
                 k \in {<<"audio", "video">>, <<"video", "audio">>}, c1 \in {"unsupported", "mixed"}, c2 \in SCodecs}
+\* an offer that lists one codec under two payload types, answered, then followed by a local change and a local
+\* offer (what the endpoint generates after it has negotiated such an offer): all of them
+TwiceVecs == {[offer |-> <<[kind |-> k, mid |-> "0", dir |-> d, codecs |-> "twice"]>>, pre |-> "none", post |-> po, place |-> "media"] :
+                k \in {"audio", "video"}, d \in {"sendrecv", "recvonly"}, po \in {"dc+offer", "track+offer"}}
 Init == \/ vec \in RandomSubset(NVec, [offer : Offers, pre : Pre, post : Post, place : Place])
+        \/ vec \in TwiceVecs
         \/ vec \in PrefVecs
         \/ vec \in MidVecs
         \/ vec \in OrderVecs
